@@ -10,6 +10,7 @@ META = {
     "level": "Decides the structural necessary conditions: (R1) every read/write/removal on contentsSet._dict is keyed by an entry's .location or by normpath(path) — never by the raw argument; (R2) difference / intersection_update / issubset / isdisjoint test locations only against `_location_lookup(other)`, that helper passes through nothing but another contentsSet, and the conversion normalises strings; intersection/issuperset/symmetric_difference go through the normalising __contains__/__getitem__; (R3) every fs entry class funnels its location through fsBase.__init__'s normpath, also on change_attributes; (R4) relocation strips trailing separators from the old prefix before measuring it, strips the separator from the remainder and re-normalises the joined result; (R5) add_missing_directories seeds from every entry, walks ancestors until one is known, and removes exactly '/'. Does NOT decide results on concrete sets.",
     "note": "",
 }
+META["technique"] += "; " + 'generic pack G on the anchored files (optional-flag shift, closures outliving a loop iteration, single-pass iterables consumed twice, %-templates built from data, in-place writes to class-level / memoised objects, generators mutating what they yielded, memo keys that are projections)'
 MOD = "pkgcore.fs.contents"
 
 
